@@ -260,7 +260,8 @@ func vpPed(g zkproof.Group, list []*big.Int, name string, v *big.Int) ([]*big.In
 // committed modulus, with their range proofs). For arbitrary 8-bit operands and
 // quotient k (r = m1*m2 - k*mod resp. a1+a2+k*mod): completeness; rejection of
 // an altered leaf (Pedersen commitment, hider/mod response, a range response)
-// and of a prover whose committed result differs from the true one.
+// and of a prover whose committed result differs from the true one - also when that
+// prover commits to the quotient computed modulo the group order.
 func vpC17_O3() {
 	g := vpGroup()
 	const l = 16
@@ -279,6 +280,10 @@ func vpC17_O3() {
 	if cheat {
 		r = vpAddBig(r, vpBigRange("dr", big.NewInt(1), big.NewInt(250)))
 	}
+	// fieldQuotient: for the wrong result the prover does not commit to the integer quotient (there is
+	// none) but to k = (x1*x2 - r) / mod computed modulo the group order - a huge number, for which
+	// the honest response formula yields negative range responses
+	fieldQuotient := cheat && !add && vpBool("fieldQuotient")
 	var list []*big.Int
 	list, s1, c1 := vpPed(g, list, "x1", x1)
 	list, s2, c2 := vpPed(g, list, "x2", x2)
@@ -292,6 +297,20 @@ func vpC17_O3() {
 	var ac additionProofCommit
 	if add {
 		list, ac = as.commitmentsFromSecrets(g, list, &bases, &secrets)
+	} else if fieldQuotient {
+		inv, ok := common.ModInverse(mod, g.Order)
+		vpAssume(ok)
+		kf := new(big.Int).Mod(new(big.Int).Mul(new(big.Int).Sub(new(big.Int).Mul(x1, x2), r), inv), g.Order)
+		// kf is huge: were it below order/mod, kf*mod = x1*x2 - r would hold over the integers, but
+		// x1*x2 - r = k*mod - dr is not a multiple of mod (the algebraic model does not know the integer value)
+		vpAssume(kf.BitLen() > l+rangeProofEpsilon+3)
+		list, mc.modMultPedersen = ms.modMultPedersen.commitmentsFromSecrets(g, list, kf)
+		hd := new(big.Int).Sub(cr.hider.secretv, new(big.Int).Mul(x1, c2.hider.secretv))
+		hd.Add(hd, new(big.Int).Mul(kf, cm.hider.secretv))
+		mc.hider = newSecret(g, ms.myname+"_hider", hd.Mod(hd, g.Order))
+		inner := zkproof.NewSecretMerge(&mc.hider, &mc.modMultPedersen, &secrets)
+		list = ms.multRepresentation.CommitmentsFromSecrets(g, list, &bases, &inner)
+		list, mc.rangeCommit = ms.modMultRange.commitmentsFromSecrets(g, list, &bases, &inner)
 	} else {
 		list, mc = ms.commitmentsFromSecrets(g, list, &bases, &secrets)
 	}
@@ -333,6 +352,10 @@ func vpC17_O3() {
 	}
 	if add {
 		vpAssert("addition proof structure check passes", as.verifyProofStructure(ap))
+	} else if fieldQuotient {
+		if !ms.verifyProofStructure(mp) {
+			return // refused by the structure check: fine
+		}
 	} else {
 		vpAssert("multiplication proof structure check passes", ms.verifyProofStructure(mp))
 	}
@@ -354,6 +377,16 @@ func vpC17_O3() {
 	}
 	accepted := challenge.Cmp(common.HashCommit(vlist, false)) == 0
 	switch {
+	case fieldQuotient:
+		// (a cut-and-choose round with challenge bit 0 checks nothing: with every bit 0 - probability
+		// 2^-rounds, 2^-80 with the real constant - any prover passes)
+		allZero := true
+		for i := 0; i < rangeProofIters; i++ {
+			if challenge.Bit(i) == 1 {
+				allZero = false
+			}
+		}
+		vpAssert("an arithmetic proof for a wrong result is rejected", !accepted || allZero)
 	case cheat:
 		vpAssert("an arithmetic proof for a wrong result is rejected", !accepted)
 	case tamper == 0:
@@ -638,5 +671,98 @@ func vpC17_O7() {
 		vpAssert("honest is-square proof is accepted", accepted)
 	} else {
 		vpAssert("an altered is-square proof is rejected", !accepted)
+	}
+}
+
+func init() {
+	vpHarnesses["vpC17_O8"] = vpC17_O8
+}
+
+// C17-O8: a whole exponentiation proof (base^exponent = result modulo a committed
+// modulus: bit commitments, base powers with range and multiplication proofs,
+// intermediate results, one OR-composed step per bit; commitments computed by the
+// proof's worker pool, one worker) for concrete small statements - 3^5 = 1,
+// 2^6 = 9, 10^3 = -1 (mod 11) - in the symbolic proof group with symbolic
+// randomizers and a fixed challenge. Completeness; rejection of a wrong
+// result, of an altered leaf in each part, and of a proof with a missing part.
+func vpC17_O8() {
+	g := vpGroup()
+	const l = 3
+	cases := [][4]int64{{3, 5, 11, 1}, {2, 6, 11, 9}, {10, 3, 11, -1}} // (a result of m-1 is committed as -1: the library's convention)
+	cs := cases[vpChoose("statement", len(cases))]
+	result := cs[3]
+	wrong := vpBool("wrongResult")
+	if wrong {
+		result = (result + 2) % cs[2]
+	}
+	var list []*big.Int
+	list, sb, cb := vpPed(g, list, "base", big.NewInt(cs[0]))
+	list, se, ce := vpPed(g, list, "exponent", big.NewInt(cs[1]))
+	list, sm, cm := vpPed(g, list, "mod", big.NewInt(cs[2]))
+	list, sr, cr := vpPed(g, list, "result", big.NewInt(result))
+	bases := zkproof.NewBaseMerge(&g, &cb, &ce, &cm, &cr)
+	secrets := zkproof.NewSecretMerge(&cb, &ce, &cm, &cr)
+	es := newExpProofStructure("base", "exponent", "mod", "result", l)
+	vpAssert("the harness's statement is what it says", es.isTrue(&secrets) == !wrong)
+	list, ec := es.commitmentsFromSecrets(g, list, &bases, &secrets)
+	// The challenge is a fixed constant (with both bit values among its low bits), not the hash of the
+	// list: the eleven cut-and-choose sub-proofs would otherwise fork on every challenge bit. The prover's
+	// commitments do not depend on it; acceptance is "the verifier's list is the list the prover hashed".
+	challenge := big.NewInt(0x5a6e36)
+	pb, pe, pm, pr := sb.buildProof(g, challenge, cb), se.buildProof(g, challenge, ce), sm.buildProof(g, challenge, cm), sr.buildProof(g, challenge, cr)
+	ep := es.buildProof(g, challenge, ec, &secrets)
+
+	tamper := 0
+	if !wrong {
+		tamper = vpChoose("tamper", 9)
+	}
+	d := vpBigRange("delta", big.NewInt(1), new(big.Int).Lsh(big.NewInt(1), 100))
+	structureBroken := false
+	switch tamper {
+	case 1:
+		ep.ExpBitProofs[1].Commit = vpAddBig(ep.ExpBitProofs[1].Commit, d)
+	case 2:
+		ep.ExpBitEqHider.Result = vpAddBig(ep.ExpBitEqHider.Result, d)
+	case 3:
+		ep.BasePowProofs[2].Sresult.Result = vpAddBig(ep.BasePowProofs[2].Sresult.Result, d)
+	case 4:
+		ep.BasePowRelProofs[1].Hider.Result = vpAddBig(ep.BasePowRelProofs[1].Hider.Result, d)
+	case 5:
+		ep.StartProof.Hresult.Result = vpAddBig(ep.StartProof.Hresult.Result, d)
+	case 6:
+		ep.InterResProofs[0].Commit = vpAddBig(ep.InterResProofs[0].Commit, d)
+	case 7:
+		vpTamperRange(ep.InterResRangeProofs[1], es.interResRange[1].rangeSecret, vpChoose("round", rangeProofIters), d)
+	case 8:
+		ep.InterStepsProofs = ep.InterStepsProofs[:len(ep.InterStepsProofs)-1]
+		structureBroken = true
+	}
+	structureOK := es.verifyProofStructure(challenge, ep)
+	if structureBroken {
+		vpAssert("an exponentiation proof with a missing part fails the structure check", !structureOK)
+		return
+	}
+	vpAssert("exponentiation proof structure check passes", structureOK)
+	pb.setName("base")
+	pe.setName("exponent")
+	pm.setName("mod")
+	pr.setName("result")
+	vbases := zkproof.NewBaseMerge(&g, &pb, &pe, &pm, &pr)
+	vproofs := zkproof.NewProofMerge(&pb, &pe, &pm, &pr)
+	var vlist []*big.Int
+	vlist = sb.commitmentsFromProof(g, vlist, challenge, pb)
+	vlist = se.commitmentsFromProof(g, vlist, challenge, pe)
+	vlist = sm.commitmentsFromProof(g, vlist, challenge, pm)
+	vlist = sr.commitmentsFromProof(g, vlist, challenge, pr)
+	vlist = es.commitmentsFromProof(g, vlist, challenge, &vbases, &vproofs, ep)
+	accepted := vpSameList(list, vlist)
+	switch {
+	case wrong:
+		vpAssert("an exponentiation proof for a wrong result is rejected", !accepted)
+	case tamper == 0:
+		vpAssert("honest exponentiation proof: reconstructed commitments equal the prover's", vpSameList(list, vlist))
+		vpAssert("honest exponentiation proof is accepted", accepted)
+	default:
+		vpAssert("an exponentiation proof with an altered leaf is rejected", !accepted)
 	}
 }
